@@ -10,6 +10,9 @@ PROPS = {
             fam("c07.laws", 1500, 1000000, seeds=1),
             # option bits rule text cannot set ($redirect, $replace, $cookie, $csp), set by the harness through reflection
             fam("c07.priox", 1000, 15000),
+            # the real selection loops (NewMatchingResult / GetDNSBasicRule): which rule is returned, go vs model
+            fam("c06.result", 1000, 8000, seeds=2),
+            fam("c06.dnsbasic", 1000, 8000, seeds=2),
         ],
         "defects": ["D6"],
         "rule": "c07.prio: ordered pairs over the 2304-rule feature pool + extras + generated rules (incl. a,a and rule vs rule+modifier); "
